@@ -51,7 +51,9 @@ def random_layout(rng: random.Random, need: Optional[Dict[str, set]] = None) -> 
         rng.shuffle(positions)
         # column 0 must hold a mandatory field that is never empty (the parser treats an empty first cell as an error);
         # timestamp / asset / exchange... all qualify
-        first_field = rng.choice([f for f in MANDATORY[table] if f not in NUMERIC])
+        # (a numeric field that is never empty qualifies too - its value may be 0, which is not an empty cell; the spot price of
+        # a transfer may be left empty, so it does not)
+        first_field = rng.choice([f for f in MANDATORY[table] if not (table == "INTRA" and f == "spot_price")])
         mapping: Dict[str, int] = {first_field: 0}
         free = [p for p in positions if p != 0]
         for f in chosen:
